@@ -558,6 +558,18 @@ def classify_handler(repo: Repo, ci: ClassInfo, cid: str, fn: ast.FunctionDef) -
             and all(isinstance(e, ast.Name) for e in real[0].targets[0].elts):
         rest = real[1:]
         names = [e.id for e in real[0].targets[0].elts]
+        # d, c, b, a = unpack(F, data); self.object.x = (a, b, c, d)      — the whole tuple stored, in the same or in reverse order
+        if len(rest) == 1 and isinstance(rest[0], ast.Assign) and len(rest[0].targets) == 1 and isinstance(rest[0].value, (ast.Tuple, ast.List)) \
+                and all(isinstance(e, ast.Name) for e in rest[0].value.elts) and _target_name(rest[0].targets[0]) \
+                and norm(real[0].value.args[1]) == data and len(names) > 1:
+            stored = [e.id for e in rest[0].value.elts]
+            if stored == names or stored == names[::-1]:
+                row.shape = "unpack"
+                row.fmt = parse_fmt(repo, ci, real[0].value.args[0])
+                row.transform = "reversed" if stored == names[::-1] else ""
+                row.targets = [_target_name(rest[0].targets[0])]
+                row.tuple_target = True
+                return row
         # (a, b) = unpack(F, data); self.object.x = a; self.object.y = b    — plain moves: the same as unpacking into the attributes
         if rest and len(rest) == len(names) and all(isinstance(s, ast.Assign) and len(s.targets) == 1 and isinstance(s.value, ast.Name) for s in rest) \
                 and [s.value.id for s in rest] == names and all(_target_name(s.targets[0]) for s in rest) and norm(real[0].value.args[1]) == data:
